@@ -460,6 +460,34 @@ def q3(ctx):
         ok = same_elem and (visits_all_of(crate, tu, "other") or loop_ok) or (same_elem and any(x.callee and x.callee.name in ("try_fold", "fold") and role_mentions_param(tu.role_of_operand(x.args[0]), "other") for x in tu.calls))
         ok = ok and role_mentions_call(tu.role_of_local(0), "clone") or (ok and any(x.callee and x.callee.name == "clone" and strip_role(tu.role_of_operand(x.args[0])) == ("param", "self") for x in tu.calls))
     ctx.check(bool(ok), "try-union-adds-others-pairs", "try_union = self.clone() + every pair of other", "try_union no longer inserts every pair (x, y) of other into a copy of self", where_of(tu))
+    # union, From<[(Slot, Slot); N]>, FromIterator: every pair of the source is inserted, key first, on every path through an iteration
+    def every_pair_inserted(b, what):
+        ins_ = [c for c in b.calls if c.callee and c.callee.target == "slotmap::SlotMap::insert" and not b.blocks[c.bb]["cleanup"]]
+        if not ins_:
+            # delegation (`pairs.into_iter().collect()`, `Self::from_iter(..)`): the delegate is checked where it is defined
+            return any(c.callee and c.callee.name in ("collect", "from_iter", "union", "try_union") and not b.blocks[c.bb]["cleanup"] for c in b.calls), "delegates"
+        if len(ins_) != 1:
+            return False, "%d insert sites" % len(ins_)
+        c = ins_[0]
+        k_, v_ = role_str(strip_role(b.role_of_operand(c.args[1])), 12), role_str(strip_role(b.role_of_operand(c.args[2])), 12)
+        if not (k_.endswith(".0") and v_.endswith(".1") and k_[:-2] == v_[:-2]):
+            return False, "inserts (%s, %s): key and value must be the two components of one source pair, in that order" % (k_[-40:], v_[-40:])
+        ghost = b.ghost_blocks()[0]
+        for lp in C.iterator_loops(b):
+            if c.bb in b.reach(lp[3], avoid=lp[2]):
+                if not C.loop_exhaustive(b, lp):
+                    return False, "the loop can stop early"
+                if not b.must_pass(lp[3], [lp[0]], {c.bb}):
+                    return False, "an iteration can go on to the next pair without inserting this one"
+                return True, "loop"
+        return False, "the insert is not inside a loop over the source"
+    for nm_, bodies_ in (("union", [m(crate, "union")]),
+                         ("from-array", [b_ for b_ in crate.by_name.get("from", []) if b_.impl_self == SM and b_.kind != "Closure"]),
+                         ("from_iter", [b_ for b_ in crate.by_name.get("from_iter", []) if b_.impl_self == SM and b_.kind != "Closure"])):
+        for b_ in bodies_:
+            okp, whyp = every_pair_inserted(mir.inline_view(crate, b_), nm_)
+            ctx.check(okp, "every-pair-inserted:" + nm_, "%s inserts every (key, value) pair of its source (%s)" % (nm_, whyp),
+                      "SlotMap %s does not insert every pair of its source as (key, value): %s" % (nm_, whyp), where_of(b_))
     # is_perm / is_bijection
     ip = m(crate, "is_perm")
     names = {c.callee.name for c in ip.calls if c.callee}
